@@ -55,6 +55,21 @@ class FuncVal:
     def __call__(self, *args, **kw):
         return self.interp.call(self, args, kw)
 
+    def call_in_order(self, *values, **kw):
+        """Call with the values bound to the parameters in declaration order, whatever their kind (a refactoring that makes the
+        parameters of a private function keyword-only does not change what a caller means by its arguments)."""
+        a = self.node.args
+        pos = [x.arg for x in a.posonlyargs + a.args]
+        kwo = [x.arg for x in a.kwonlyargs]
+        if len(values) <= len(pos) or a.vararg is not None:
+            return self.interp.call(self, values, kw)
+        extra = values[len(pos):]
+        if len(extra) > len(kwo):
+            return self.interp.call(self, values, kw)      # too many: let the call fail as Python would
+        kw = dict(kw)
+        kw.update(zip(kwo, extra))
+        return self.interp.call(self, values[:len(pos)], kw)
+
 
 class Interp:
     def __init__(self, max_steps=2_000_000):
@@ -216,7 +231,10 @@ class Interp:
             for item in st.items:
                 cm = ev(item.context_expr, env)
                 if isinstance(cm, _Suppress):
-                    suppress += cm.classes
+                    if isinstance(item.context_expr, ast.Call):
+                        suppress += tuple(self.exc_class(a_, env) for a_ in item.context_expr.args)
+                    else:
+                        suppress += cm.classes
                     continue
                 if not hasattr(cm, '_cm_value'):
                     raise Unknown(f'with-statement over a non-model context manager: {ast.unparse(item.context_expr)[:60]}')
@@ -280,6 +298,11 @@ class Interp:
             dv.update({p.arg: ev(d, env) for p, d in zip(a.kwonlyargs, a.kw_defaults) if d is not None})
             env[st.name] = FuncVal(st, env, self, dv)
         elif t in (ast.Import, ast.ImportFrom):
+            if t is ast.Import or st.level == 0 and st.module != 'segno':
+                tmp = {}
+                _evmod.bind_stdlib_import(st, tmp)
+                for k_, v_ in tmp.items():
+                    env[k_] = v_
             return
         else:
             raise Unknown(f'statement kind {t.__name__} outside the interpreter grammar (line {st.lineno})')
@@ -475,10 +498,38 @@ def make_callable(forest, mod, qual, interp, extra_env=None):
     return FuncVal(forest.func(mod, qual), genv, interp)
 
 
+class _Foreign(dict):
+    make = None
+
+
+class _LazyModule(_evmod.Namespace):
+    """A module of the package bound by `import` / `from . import m`: constants as folded, functions and classes callable in the
+    globals of their own module (built on first use)."""
+
+    def __init__(self, base, foreign):
+        super().__init__(base._name, base._values, base._failed, base._exprs)
+        self._foreign = foreign
+
+    def get(self, attr):
+        v = super().get(attr)
+        if isinstance(v, FuncRef) and isinstance(v.node, (ast.FunctionDef, ast.ClassDef)) and v.mod == self._name:
+            if v.mod not in self._foreign:
+                self._foreign[v.mod] = self._foreign.make(v.mod)
+            return self._foreign[v.mod].get(attr, v)
+        return v
+
+
 def callable_env(forest, mod, interp, extra_env=None):
     """Global environment of `mod` in which its own top-level functions can call each other."""
     genv = _evmod.base_env(forest, mod)
-    foreign = {}
+    foreign = _Foreign()
+    # a stand-in for a function imported by name stands in for the definition in its own module, too (other functions of that
+    # module that the caller reaches see the same stand-in)
+    foreign_over = {}
+    for k, v in genv.items():
+        if extra_env and k in extra_env and isinstance(v, FuncRef) and isinstance(v.node, ast.FunctionDef) and v.mod != mod:
+            foreign_over.setdefault(v.mod, {})[v.name] = extra_env[k]
+    foreign.make = lambda m: callable_env(forest, m, interp, foreign_over.get(m))
     for k, v in list(genv.items()):
         if isinstance(v, FuncRef) and isinstance(v.node, ast.FunctionDef):
             if v.mod == mod:
@@ -486,15 +537,18 @@ def callable_env(forest, mod, interp, extra_env=None):
             else:
                 # a function imported by name runs in the globals of its own module
                 if v.mod not in foreign:
-                    foreign[v.mod] = callable_env(forest, v.mod, interp)
+                    foreign[v.mod] = foreign.make(v.mod)
                 genv[k] = FuncVal(v.node, foreign[v.mod], interp)
+    for k, v in list(genv.items()):
+        if type(v) is _evmod.Namespace and v._name in forest.trees and v._name != mod:
+            genv[k] = _LazyModule(v, foreign)
     for k, v in list(genv.items()):
         if isinstance(v, FuncRef) and isinstance(v.node, ast.ClassDef) and not _is_exception_class(v.node, genv):
             if v.mod == mod:
                 genv[k] = ClassVal(forest, mod, v.node, genv, interp)
             else:
                 if v.mod not in foreign:
-                    foreign[v.mod] = callable_env(forest, v.mod, interp)
+                    foreign[v.mod] = foreign.make(v.mod)
                 genv[k] = ClassVal(forest, v.mod, v.node, foreign[v.mod], interp)
 
     def deep(v, depth=0):
@@ -505,7 +559,7 @@ def callable_env(forest, mod, interp, extra_env=None):
             if v.mod == mod:
                 return FuncVal(v.node, genv, interp)
             if v.mod not in foreign:
-                foreign[v.mod] = callable_env(forest, v.mod, interp)
+                foreign[v.mod] = foreign.make(v.mod)
             return FuncVal(v.node, foreign[v.mod], interp)
         if depth < 3 and isinstance(v, tuple) and any(isinstance(x, (FuncRef, tuple, list, dict)) for x in v):
             return tuple(deep(x, depth + 1) for x in v)
